@@ -178,11 +178,18 @@ def gen_body(rng, focus: str = "") -> Tuple[str, set]:
         body = f"({body}, Pair(G1, b=c2).b + NT(1, y=c1).y)"
     elif extra < 0.3:
         body = f"({body}, (e.met if GS == 'pt' else 0))"
-    elif extra < 0.34:
+    elif extra < 0.38:
+        # a callee that resolves to a real Python callable (module function): the call stays, but the captured variables and
+        # nested lambdas INSIDE its arguments are frozen like everywhere else (seed C04-w6-2)
+        arg = rng.choice(["e.met * c1 + G1", "c2", "Count(e.jets.Where(lambda j: j.pt > c1)) + G2", "h1(c1) + e.run",
+                          "(lambda t: t + c2)(e.met)", "Cfg.threshold + c1"])
+        body = rng.choice([f"({body}, math.gcd({arg}, G1 + 7))", f"(math.floor({arg}) + c2, {body})",
+                           f"({body}, math.gcd(b=c1 + 3, a={arg}))" if False else f"({body}, math.gcd(c1 + 3, {arg}))"])
+    elif extra < 0.42:
         # enum members stay references by name (resolved by the backend); their use must not disturb anything else
         body = rng.choice([f"({body}, (e.met if Color.RED == Color.RED else 0))", f"({body}, Color.BLUE.value + c1)",
                            f"((1 if Color.RED != Color.BLUE else G1), {body})"])
-    elif extra < 0.42:
+    elif extra < 0.5:
         # leave an inner scope that re-used a live name, then use the outer variable again (bare)
         v = rng.choice(["e", "e", "x"])
         inner = rng.choice([f"e.jets.Select(lambda {v}: {v}.pt).Count()", f"Count([{v}.pt for {v} in e.jets if {v}.n > c1])",
